@@ -253,6 +253,11 @@ C02 = {
     'static_cast_int_to_ptr': ('tainted<uintptr_t, S>& o', 'auto t = sandbox_static_cast<int*>(o); (void)t;', True),
     'const_cast_int_to_ptr': ('tainted<uintptr_t, S>& o', 'auto t = sandbox_const_cast<int*>(o); (void)t;', True),
     'tainted_ptr_init_from_tainted_int': ('tainted<uintptr_t, S>& o', 'tainted<int*, S> t = o; (void)t;', True),
+    # pointer arithmetic whose POINTER operand is a plain application pointer: the result would be a tainted pointer built from it
+    'tainted_int_plus_plain_ptr': ('tainted<long, S>& o, int* raw', 'auto t = o + raw; (void)t;', True),
+    'tvol_int_plus_plain_ptr': ('tainted_volatile<long, S>& o, int* raw', 'auto t = o + raw; (void)t;', True),
+    'plain_ptr_plus_tainted_int': ('tainted<long, S>& o, int* raw', 'auto t = raw + o; (void)t;', True),
+    'plain_ptr_minus_tainted_int': ('tainted<long, S>& o, int* raw', 'auto t = raw - o; (void)t;', True),
     # (information only: a tainted INTEGER stored into a pointer cell becomes the guest REPRESENTATION (range-checked offset), not an application address)
     'tvol_ptr_assign_from_tainted_int': ('tainted<uintptr_t, S>& o, tainted_volatile<int*, S>& v', 'v = o;', None),
     'tainted_ptr_memcpy_src_raw_into_sbx_ok': ('tainted<char*, S>& d, char* raw', 'rlbox::memcpy(sb, d, raw, 4u);', None),
